@@ -57,6 +57,7 @@ pub fn lwe_roundtrip<const B: usize, const K: usize, const PS: usize>(s0: i64, s
     let bytes = module.lwe_encrypt_sk_tmp_bytes(&ct).max(module.lwe_decrypt_tmp_bytes(&ct));
     let mut arena = Buf::<32>::sym();
     assert!(bytes <= 256, "GRID ERROR: arena");
+    set_arena(arena.bytes().as_ptr());
     {
         let enc_bytes = module.lwe_encrypt_sk_tmp_bytes(&ct);
         let scratch: &mut Scratch<FFT64Ref> = Scratch::<FFT64Ref>::from_bytes(&mut arena.bytes_mut()[..enc_bytes]);
